@@ -546,6 +546,109 @@ def _identity(cfg, problem, hist=None):
     return f"{cfg_name(cfg).split('/n=')[0]}|{clause}"
 
 
+# ----------------------------------------------------------------------------- part P: the protected list changes during a history
+P_MARKS = ("builtin", "empty", "plus_component")
+P_NAMES = ("a", "slot")
+
+
+def _p_ops():
+    return [("mark", m) for m in P_MARKS] + [("register", n) for n in P_NAMES] + [("unregister", n) for n in P_NAMES] + [("clear",)]
+
+
+def protection_history_task(arg):
+    """`mark_protected_tags(lib, tags)` REPLACES the protected list of a library (the documented way to change it), also in the
+    middle of a registry's life.  Every history of <= L ops over mark(builtin list | [] | builtin + "component"), register / unregister
+    of `a` and `slot`, clear on one registry (default / shorthand formatter) over a pre-loaded private Library.  Model: a dict + the
+    current protected list; invariant: a tag that is protected now and was in the library when it became protected is still there and
+    still the same object; a name is refused exactly when its tag is protected now; registry contents equal the dict."""
+    from itertools import product
+
+    from django.template import Library
+
+    from django_components import ComponentRegistry, RegistrySettings
+    from django_components.library import PROTECTED_TAGS, mark_protected_tags
+
+    fmt, maxlen = arg
+    e = env()
+    A = e.classes[0]
+    failures, nseq, ntr = [], 0, 0
+    seen = set()
+    ops = _p_ops()
+    for L in range(1, maxlen + 1):
+        for hist in product(ops, repeat=L):
+            if not any(o[0] == "mark" for o in hist) or hist[-1][0] == "mark" and L > 1 and False:
+                continue
+            del e.all_registries[e.base_len:]
+            lib = Library()
+            lib.tags.update(e.builtin_tags)
+            reg = ComponentRegistry(library=lib, settings=RegistrySettings(tag_formatter=e.formatters[fmt]))
+            model, protected, guarded = {}, set(), {}
+            nseq += 1
+            for j, op in enumerate(hist):
+                ntr += 1
+                problem = None
+                if op[0] == "mark":
+                    lst = None if op[1] == "builtin" else ([] if op[1] == "empty" else [*PROTECTED_TAGS, "component"])
+                    got = _call(mark_protected_tags, lib, lst)
+                    exp = ("ok", None)
+                    protected = set(PROTECTED_TAGS if lst is None else lst)
+                    guarded = {t: lib.tags[t] for t in protected if t in lib.tags}
+                elif op[0] == "register":
+                    tag = ref_tag(fmt, op[1])
+                    if op[1] in model and tag in protected:
+                        # two clauses of the statement meet ("re-registration is a no-op" / "a protected tag is never written"):
+                        # either answer is accepted, the contents and the protected tag are still checked below
+                        exp = ("either", None)
+                    elif op[1] in model:
+                        exp = ("ok", None)
+                    elif tag in protected:
+                        exp = ("exc", "TagProtectedError")
+                    else:
+                        exp = ("ok", None)
+                        model[op[1]] = A
+                    got = _call(reg.register, op[1], A)
+                elif op[0] == "unregister":
+                    if op[1] in model:
+                        del model[op[1]]
+                        exp = ("ok", None)
+                    else:
+                        exp = ("exc", "NotRegistered")
+                    got = _call(reg.unregister, op[1])
+                else:
+                    model.clear()
+                    exp = ("ok", None)
+                    got = _call(reg.clear)
+                if exp[0] == "either":
+                    if not (got[0] == "ok" or got[:2] == ("exc", "TagProtectedError")):
+                        problem = f"ret:{op[0]}: {op} gave {got[:2]}, expected a no-op or TagProtectedError"
+                elif got[:2] != exp[:2] and not (got[0] == "ok" and exp[0] == "ok"):
+                    problem = f"ret:{op[0]}: {op} gave {got[:2]}, the model (dict + current protected list {sorted(protected)}) gives {exp[:2]}"
+                if problem is None and reg.all() != model:
+                    problem = f"contents: registry holds {sorted(reg.all())}, the dict holds {sorted(model)}"
+                if problem is None:
+                    for t, fn in guarded.items():
+                        if t not in protected:
+                            continue
+                        if t not in lib.tags:
+                            problem = f"protected-removed: protected tag {t!r} was removed from the library"
+                        elif lib.tags[t] is not fn:
+                            problem = f"protected-overwritten: protected tag {t!r} no longer maps to the function it had when it became protected"
+                        if problem:
+                            break
+                seen.add((op[0], got[0]))
+                if problem:
+                    failures.append((f"protection-history/{fmt}|{problem.split(':')[0]}|{'>'.join('.'.join(o) for o in hist[:j + 1])}" if False else
+                                     f"protection-history/{fmt}|{problem.split(':')[0]}|{op[0]}",
+                                     f"[{fmt} formatter, pre-loaded private Library] after {list(hist[:j + 1])}: {problem}",
+                                     {"part": "protection", "fmt": fmt, "history": [list(o) for o in hist[:j + 1]]}))
+                    break
+    best = {}
+    for ident, what, case in failures:
+        if ident not in best or len(case["history"]) < len(best[ident][2]["history"]):
+            best[ident] = (ident, what, case)
+    return fmt, nseq, ntr, list(best.values()), len(seen)
+
+
 def run(ctx):
     ev, fnd = ctx.ev, ctx.fnd
     thorough = ctx.tier == "thorough"
@@ -618,6 +721,12 @@ def run(ctx):
         ev.add_part("template:" + nm, states=n, transitions=checked, validated=checked, nontrivial=nontriv, observed_distinct=nouts)
         for problem, hist in failures:
             fnd.report(_identity(cfg_by_name[nm], problem), f"[{nm}] {problem}", {"part": "template", "cfg": cfg_by_name[nm], "history": hist})
+    plen = 5 if thorough else 4
+    for fmt, nseq, ntr, pf, nobs in par.run_tasks(protection_history_task, [("default", plen), ("shorthand", plen)]):
+        ev.add_part(f"protection_histories_{fmt}", states=nseq, transitions=ntr, validated=ntr, nontrivial=nseq, observed_distinct=nobs,
+                    bound={"ops": [".".join(o) for o in _p_ops()], "max_len": plen, "histories": "all sequences holding at least one mark op"},
+                    samples=[{"history": ["mark.builtin", "mark.empty", "register.slot"], "expect": "accepted: nothing is protected any more"}])
+        fnd.merge_reports(pf)
     ev.assumptions = [
         "single-threaded histories; formatter and protection list fixed per registry/library for the whole history",
         "3 names x 3 classes per registry (4 names for the prefix formatter; 2 classes in the quick two-registry configurations); "
@@ -627,6 +736,11 @@ def run(ctx):
 
 
 def replay(ctx, case):
+    if case.get("part") == "protection":
+        fmt, nseq, ntr, pf, _ = protection_history_task((case["fmt"], len(case["history"])))
+        for f in pf:
+            print(f[1])
+        return not pf
     cfg = case["cfg"]
     _VALIDATED.clear()
     w = World(cfg)
